@@ -3,7 +3,7 @@
    deviation F3 and for the rule before the F4 fix and Print Assumptions.
    Model: Factory/Model.v (+ Factory/Scenario.v for concrete histories); proofs: Factory/Conserve.v. *)
 From Coq Require Import List NArith Bool Permutation.
-From RV Require Import Factory.Model Factory.Scenario Factory.Oracle Factory.Conserve Factory.ConserveRet Factory.RouteCouple.
+From RV Require Import Factory.Model Factory.Scenario Factory.Oracle Factory.Conserve Factory.ConserveRet Factory.ConserveTerm Factory.RouteCouple.
 Import ListNotations.
 Local Open Scope N_scope.
 
@@ -96,17 +96,29 @@ Theorem C13_returned_is_discarded : forall c n d rls ls j,
   exists r, In (EDisc j r) (evs (run c (init c n d rls) ls)).
 Proof. exact returned_is_discarded. Qed.
 
-(* OPEN (not proved; stated for the record):
-   C13_terminal (global form): fstatus w = FStopped -> live_jobs w = [] for every reachable w. The
-   local halves are (7); the global form additionally needs the frame invariants "held -> running",
-   "nothing is queued while the factory is not running" and "dead actors hold nothing".
-   *)
+(* (10) THE TERMINAL THEOREM, global form, for every history (stale completions included): in every
+   reachable state in which the factory has stopped, no job is left in the factory queue, a worker
+   queue, the inbox, a mailbox or a handler; hence the fates recorded are exactly the dispatched
+   jobs, each once ((1)-(3)). Which fate: handled, discarded with a reason, lost with a dying
+   worker, refused at send -- or dropped by the stopping factory itself, which is the known
+   finding F9 (cause CStopExit; before 700d6bc also CWorkerQueue, F4). *)
+Theorem C13_terminal : forall c n d rls ls,
+  let w := run c (init c n d rls) ls in
+  fstatus w = FStopped -> live_jobs w = [].
+Proof. exact terminal_no_live_job. Qed.
+
+Theorem C13_terminal_every_job_fated : forall c n d rls ls,
+  let w := run c (init c n d rls) ls in
+  fstatus w = FStopped -> Permutation (fated_ids w) (sent_ids ls).
+Proof. exact terminal_every_job_fated. Qed.
 
 (* ---- pins *)
 Check (C13_places_partition : forall c n d rls ls,
   Permutation (places (run c (init c n d rls) ls)) (sent_ids ls)).
 Check (C13_never_runs_twice : forall c n d rls ls,
   NoDup (sent_ids ls) -> NoDup (started_ids (run c (init c n d rls) ls))).
+Check (C13_terminal : forall c n d rls ls,
+  let w := run c (init c n d rls) ls in fstatus w = FStopped -> live_jobs w = []).
 Check (C13_single_fate : forall c n d rls ls,
   NoDup (sent_ids ls) ->
   let w := run c (init c n d rls) ls in
@@ -178,3 +190,5 @@ Print Assumptions C13_finalize_empties.
 Print Assumptions C13_worker_holds_one.
 Print Assumptions C13_one_per_death.
 Print Assumptions C13_returned_is_discarded.
+Print Assumptions C13_terminal.
+Print Assumptions C13_terminal_every_job_fated.
